@@ -1,4 +1,4 @@
-\* quick: all five kinds; every pair of accepted URIs one edit apart over
+\* quick: all six kinds; every pair of accepted URIs one edit apart over
 \*   rsync: hosts {h.test, g.test} x {lower, Mixed} x module {m, n}
 \*   https: hosts {h.test, g.test, "..", ""} x case x port
 \*   paths: <= 2 segments over {a, A, ""(trailing slash)}
@@ -6,7 +6,7 @@
 SPECIFICATION Spec
 CONSTANTS
   Variant = "as_shipped"
-  Kinds = {"mft", "mftn", "ta", "tah", "notify"}
+  Kinds = {"mft", "mftn", "ta", "tah", "notify", "notify1"}
   Mode = "near"
   HostsR = {"h.test", "g.test"}
   HostsH = {"h.test", "g.test", "..", ""}
